@@ -269,25 +269,15 @@ def symbolize_minima_expression(
             #       logic already replaces gamma_plus-terms with the bare rank when
             #       gamma_plus_zero=True, so there is no risk of undervaluing costs.
 
-            added = False
-
-            # Build expression for rejected conditionals (gamma_minus part); this is the
-            # essential component for our optimisation irrespective of gamma_plus.
-            if rejected_indices:
-                rejected_sum = Plus([_gamma(f"gamma-_{i}") for i in rejected_indices])
-                results[index].append(Plus([rejected_sum, Int(rank)]))
-                added = True
-
-            # Include gamma_plus part only when they contribute (i.e. not fixed to zero).
-            if accepted_indices and not gamma_plus_zero:
-                accepted_sum = Plus([_gamma(f"gamma+_{i}") for i in accepted_indices])
-                results[index].append(Plus([accepted_sum, Int(rank)]))
-                added = True
-
-            # If this triple yielded no expression (e.g. gamma_plus fixed to 0 AND no gamma_minus
-            # violations), fall back to the plain rank so every triple influences
-            # the minima calculation.
-            if not added:
+            # cost of the world under the revised ranking: prior rank plus gamma_minus of
+            # every falsified and gamma_plus of every verified other conditional - one sum
+            # per world (two separate sums would let the minimum ignore one of the parts)
+            terms = [_gamma(f"gamma-_{i}") for i in rejected_indices]
+            if not gamma_plus_zero:
+                terms += [_gamma(f"gamma+_{i}") for i in accepted_indices]
+            if terms:
+                results[index].append(Plus(terms + [Int(rank)]))
+            else:
                 results[index].append(Int(rank))
 
     return results
